@@ -919,7 +919,19 @@ def translate_culture(arg):
                             'words': words_of(m['tree'], ct.lists), 'regexes': regexes_of(m['tree']),
                             'size': tree_size(m['tree'])})
         folded += ct.folded
+    # which regex the date-period parser configuration holds as its "previous" prefix: the resource's PreviousPrefixRegex
+    # (what the date parser configuration and the extractors use) or something narrower (German / Italian before the fix)
+    follows = True
+    try:
+        dp = next(v for k, v in inst.items() if k.endswith('DatePeriodParserConfiguration'))
+        da = next(v for k, v in inst.items() if k.endswith('DateParserConfiguration') and not k.endswith('PeriodParserConfiguration'))
+        a, b = getattr(dp, 'previous_prefix_regex', None), getattr(da, '_past_prefix_regex', None)
+        if hasattr(a, 'pattern') and hasattr(b, 'pattern'):
+            follows = a.pattern == b.pattern
+    except StopIteration:
+        pass
     return {'culture': culture, 'dir': culdir, 'short': short, 'methods': methods, 'unsupported': unsupported,
+            'past_follows_previous': follows,
             'regexes': {k: list(v) for k, v in regs.items()}, 'lists': lists, 'folded': sorted(set(folded))}
 
 
@@ -967,6 +979,9 @@ def culture_text(t):
         text += '/-- %s -/\ndef %s : Method where\n  name := "%s"\n  nStr := %d\n  nInt := %d\n  truthy := %s\n  body :=\n%s\n\n' % (
             doc, m['short'], m['key'], ns_, ni_, 'true' if m['truthy'] else 'false', em.ve(m['tree'], 2))
         names.append(m['short'])
+    text += ('/-- the date-period parser configuration\'s `previous_prefix_regex` is the pattern the date parser configuration holds '
+             'as `_past_prefix_regex` (the resource\'s PreviousPrefixRegex); `true` when the culture has no such pair -/\n'
+             'def pastPrefixFollowsPrevious : Bool := %s\n\n' % ('true' if t['past_follows_previous'] else 'false'))
     text += 'def methods : List Method := [%s]\n\n' % ', '.join(names)
     text += 'def unsupported : List (String × String) := [\n%s]\n\n' % ',\n'.join(
         '  ("%s", "%s")' % (k, _re.sub(r'["\\\n]', ' ', why)[:160]) for k, why in t['unsupported'])
